@@ -88,8 +88,69 @@ OPS_SPECS = r"""
 impl Copy for BaseElement {}
 impl Clone for BaseElement { fn clone(&self) -> Self { *self } }
 pub open spec fn wf(e: BaseElement) -> bool { (e.0 as int) < P() }
-// Montgomery product on residues: the unique r < P with r * R == a * b (mod P)
-pub open spec fn mm(a: int, b: int) -> int { (a * b * INV()) % P() }
+// the field element an internal value stands for: inner * 2^-64 mod p (Montgomery form)
+pub open spec fn vali(x: int) -> int { (x * INV()) % P() }
+pub open spec fn val(e: BaseElement) -> int { vali(e.0 as int) }
+
+pub proof fn lemma_vali_congruent(x: int, y: int)
+    requires x % P() == y % P(),
+    ensures vali(x) == vali(y),
+{
+    vstd::arithmetic::div_mod::lemma_mul_mod_noop_left(x, INV(), P());
+    vstd::arithmetic::div_mod::lemma_mul_mod_noop_left(y, INV(), P());
+}
+pub proof fn lemma_val_add_forall(a: int, b: int)
+    ensures forall|r: int| #![trigger vali(r)] r % P() == (a + b) % P() ==> vali(r) == (vali(a) + vali(b)) % P(),
+{
+    assert forall|r: int| #![trigger vali(r)] r % P() == (a + b) % P() implies vali(r) == (vali(a) + vali(b)) % P() by {
+        lemma_vali_congruent(r, a + b);
+        assert((a + b) * INV() == a * INV() + b * INV()) by (nonlinear_arith);
+        vstd::arithmetic::div_mod::lemma_add_mod_noop(a * INV(), b * INV(), P());
+    }
+}
+pub proof fn lemma_val_sub_forall(a: int, b: int)
+    ensures forall|r: int| #![trigger vali(r)] r % P() == (a - b) % P() ==> vali(r) == (vali(a) - vali(b)) % P(),
+{
+    assert forall|r: int| #![trigger vali(r)] r % P() == (a - b) % P() implies vali(r) == (vali(a) - vali(b)) % P() by {
+        lemma_vali_congruent(r, a - b);
+        assert((a - b) * INV() == a * INV() - b * INV()) by (nonlinear_arith);
+        vstd::arithmetic::div_mod::lemma_sub_mod_noop(a * INV(), b * INV(), P());
+    }
+}
+pub proof fn lemma_val_mul_forall(a: int, b: int)
+    ensures forall|r: int| #![trigger vali(r)] (r * R()) % P() == (a * b) % P() ==> vali(r) == (vali(a) * vali(b)) % P(),
+{
+    assert forall|r: int| #![trigger vali(r)] (r * R()) % P() == (a * b) % P() implies vali(r) == (vali(a) * vali(b)) % P() by {
+        let x = a * b;
+        let y = r * R();
+        // x * INV * INV == y * INV * INV (mod P)
+        vstd::arithmetic::div_mod::lemma_mul_mod_noop_left(x, INV() * INV(), P());
+        vstd::arithmetic::div_mod::lemma_mul_mod_noop_left(y, INV() * INV(), P());
+        // y * INV * INV == (r * INV) * (R * INV) == r * INV (mod P)
+        assert(y * (INV() * INV()) == (r * INV()) * (R() * INV())) by (nonlinear_arith) requires y == r * R();
+        assert((R() * INV()) % P() == 1) by (compute);
+        vstd::arithmetic::div_mod::lemma_mul_mod_noop_right(r * INV(), R() * INV(), P());
+        assert(((r * INV()) * 1) % P() == vali(r));
+        // vali(a) * vali(b) == (a * INV) * (b * INV) == x * INV * INV (mod P)
+        vstd::arithmetic::div_mod::lemma_mul_mod_noop(a * INV(), b * INV(), P());
+        assert((a * INV()) * (b * INV()) == x * (INV() * INV())) by (nonlinear_arith) requires x == a * b;
+    }
+}
+
+// reduced declarations of math/src/field/traits.rs (the methods under contract)
+pub trait FieldElement: Sized {
+    spec fn wf_e(self) -> bool;
+    fn double(self) -> (r: Self)
+        requires self.wf_e();
+}
+pub trait ExtensibleField<const N: usize>: Sized {
+    spec fn wf_x(a: [Self; N]) -> bool;
+    spec fn wf_b(b: Self) -> bool;
+    fn mul(a: [Self; N], b: [Self; N]) -> (r: [Self; N])
+        requires Self::wf_x(a), Self::wf_x(b);
+    fn mul_base(a: [Self; N], b: Self) -> (r: [Self; N])
+        requires Self::wf_x(a), Self::wf_b(b);
+}
 
 impl vstd::std_specs::ops::AddSpecImpl<BaseElement> for BaseElement {
     open spec fn obeys_add_spec() -> bool { false }
@@ -170,6 +231,21 @@ GH_INT_2 = r'''
     }
 '''
 
+EXT2_EXTRA = r"""
+    open spec fn wf_x(a: [BaseElement; 2]) -> bool { wf(a[0]) && wf(a[1]) }
+    open spec fn wf_b(b: BaseElement) -> bool { wf(b) }
+"""
+EXT2_MUL_PROOF = r"""
+        proof {
+            let (a0, a1, b0, b1) = (val(a[0]), val(a[1]), val(b[0]), val(b[1]));
+            // r0 = a0b0 - 2 * (a1b1 mod P)  ;  r1 = (a0 + a1)(b0 + b1) - a0b0
+            vstd::arithmetic::div_mod::lemma_mul_mod_noop_right(2, a1 * b1, P());
+            vstd::arithmetic::div_mod::lemma_sub_mod_noop(a0 * b0, 2 * (a1 * b1), P());
+            vstd::arithmetic::div_mod::lemma_mul_mod_noop(a0 + a1, b0 + b1, P());
+            vstd::arithmetic::div_mod::lemma_sub_mod_noop((a0 + a1) * (b0 + b1), a0 * b0, P());
+            assert((a0 + a1) * (b0 + b1) - a0 * b0 == a0 * b1 + a1 * b0 + a1 * b1) by (nonlinear_arith);
+        }"""
+
 EPILOGUE = r'''
 // the extracted constants are the documented ones
 proof fn thm_constants()
@@ -243,21 +319,71 @@ UNIT = {
         {"kind": "impl", "file": F, "header": "impl Add for BaseElement", "out_header": "impl core::ops::Add for BaseElement",
          "extra": "type Output = Self;\n", "methods": [
             {"name": "add", "ret": "r", "fnlabel": "f64 <BaseElement as Add>::add", "ob": "C10.f64.add.contract",
-             "spec": "ensures wf(r), r.0 as int == (self.0 as int + rhs.0 as int) % P(),"}]},
+             "spec": "ensures wf(r), r.0 as int == (self.0 as int + rhs.0 as int) % P(),\n    val(r) == (val(self) + val(rhs)) % P(),",
+             "ghost": [{"at": "start", "text": "proof { lemma_val_add_forall(self.0 as int, rhs.0 as int); vstd::arithmetic::div_mod::lemma_mod_twice(self.0 as int + rhs.0 as int, P()); }"}]}]},
         {"kind": "impl", "file": F, "header": "impl Sub for BaseElement", "out_header": "impl core::ops::Sub for BaseElement",
          "extra": "type Output = Self;\n", "methods": [
             {"name": "sub", "ret": "r", "fnlabel": "f64 <BaseElement as Sub>::sub", "ob": "C10.f64.sub.contract",
-             "spec": "ensures wf(r), r.0 as int == (self.0 as int - rhs.0 as int) % P(),"}]},
+             "spec": "ensures wf(r), r.0 as int == (self.0 as int - rhs.0 as int) % P(),\n    val(r) == (val(self) - val(rhs)) % P(),",
+             "ghost": [{"at": "start", "text": "proof { lemma_val_sub_forall(self.0 as int, rhs.0 as int); vstd::arithmetic::div_mod::lemma_mod_twice(self.0 as int - rhs.0 as int, P()); }"}]}]},
         {"kind": "impl", "file": F, "header": "impl Mul for BaseElement", "out_header": "impl core::ops::Mul for BaseElement",
          "extra": "type Output = Self;\n", "methods": [
             {"name": "mul", "ret": "r", "fnlabel": "f64 <BaseElement as Mul>::mul", "ob": "C10.f64.mul.contract",
-             "spec": "ensures wf(r), (r.0 as int * R()) % P() == (self.0 as int * rhs.0 as int) % P(),",
+             "spec": "ensures wf(r), (r.0 as int * R()) % P() == (self.0 as int * rhs.0 as int) % P(),\n    val(r) == (val(self) * val(rhs)) % P(),",
              "ghost": [{"at": "start", "text": r"""
         proof {
+            lemma_val_mul_forall(self.0 as int, rhs.0 as int);
             assert((self.0 as int * rhs.0 as int) < P() * R()) by (nonlinear_arith)
                 requires 0 <= self.0 as int, (self.0 as int) < P(), 0 <= (rhs.0 as int), (rhs.0 as int) < P(), P() < R();
             assert(0 <= self.0 as int * rhs.0 as int) by (nonlinear_arith) requires 0 <= self.0 as int, 0 <= rhs.0 as int;
         }"""}]}]},
+
+        {"kind": "impl", "file": F, "header": "impl FieldElement for BaseElement",
+         "extra": "open spec fn wf_e(self) -> bool { wf(self) }\n", "methods": [
+            {"name": "double", "ret": "r", "fnlabel": "f64 FieldElement::double", "ob": "C10.f64.double.contract",
+             "spec": "ensures wf(r), r.0 as int == (2 * self.0 as int) % P(), val(r) == (2 * val(self)) % P(),",
+             "ghost": [{"at": "start", "text": "proof { lemma_val_add_forall(self.0 as int, self.0 as int); }"},
+                       {"at": "after", "anchor": "let ret =", "text": r"""
+        proof {
+            let x = self.0;
+            assert(ret == (x as u128) * 2) by (bit_vector) requires ret == (x as u128) << 1;
+        }"""},
+                       {"at": "after", "anchor": "let (result, over) =", "text": r"""
+        proof {
+            assert(result as u128 + ((over as u128) << 64) == ret && over <= 1) by (bit_vector)
+                requires result == ret as u64, over == (ret >> 64) as u64, ret < 0x2_0000_0000_0000_0000u128;
+            assert(((over as u128) << 64) == (over as u128) * 0x1_0000_0000_0000_0000u128) by (bit_vector) requires over <= 1;
+        }"""},
+                       {"at": "after", "anchor": "let reduce =", "text": r"""
+        proof {
+            let ge: u64 = if result >= M { 1u64 } else { 0u64 };
+            assert((result >= M) as u64 == ge);
+            assert(reduce == (if over == 1 || result >= M { 1u64 } else { 0u64 })) by (bit_vector)
+                requires reduce == over | ge, over <= 1, ge <= 1, ge == (if result >= M { 1u64 } else { 0u64 });
+            // the doubled value is 2x = result + over * 2^64 < 2P; subtracting P once when needed lands in [0, P)
+            let two_x = 2 * (self.0 as int);
+            assert(two_x == result as int + over as int * R());
+            if reduce == 1 {
+                assert(M * reduce == M);
+                vstd::arithmetic::div_mod::lemma_mod_multiples_vanish(-1, two_x, P());
+                vstd::arithmetic::div_mod::lemma_small_mod((two_x - P()) as nat, P() as nat);
+                assert(result.wrapping_sub(M) as int == two_x - P());
+            } else {
+                assert(M * reduce == 0);
+                vstd::arithmetic::div_mod::lemma_small_mod(two_x as nat, P() as nat);
+            }
+            vstd::arithmetic::div_mod::lemma_mod_twice(two_x, P());
+        }"""}]}]},
+        {"kind": "impl", "file": F, "header": "impl ExtensibleField<2> for BaseElement", "extra": EXT2_EXTRA, "methods": [
+            {"name": "mul", "ret": "r", "fnlabel": "f64 <BaseElement as ExtensibleField<2>>::mul", "ob": "C10.f64.ext2.mul.contract",
+             "spec": "ensures wf(r[0]), wf(r[1]),\n"
+                     "    // (a0 + a1 phi)(b0 + b1 phi) with phi^2 = phi - 2\n"
+                     "    val(r[0]) == (val(a[0]) * val(b[0]) - 2 * (val(a[1]) * val(b[1]))) % P(),\n"
+                     "    val(r[1]) == (val(a[0]) * val(b[1]) + val(a[1]) * val(b[0]) + val(a[1]) * val(b[1])) % P(),",
+             "ghost": [{"at": "start", "text": EXT2_MUL_PROOF}]},
+            {"name": "mul_base", "ret": "r", "fnlabel": "f64 <BaseElement as ExtensibleField<2>>::mul_base", "ob": "C10.f64.ext2.mul_base.contract",
+             "spec": "ensures wf(r[0]), wf(r[1]), val(r[0]) == (val(a[0]) * val(b)) % P(), val(r[1]) == (val(a[1]) * val(b)) % P(),"},
+        ]},
     ],
     "epilogue": EPILOGUE,
     "theorems": {"thm_constants": "C11.f64.constants.M_R2", "thm_roundtrip": "C11.f64.as_int_new.identity"},
